@@ -20,6 +20,8 @@ pub struct CliOut {
     pub hang: Option<String>,
     /// ambient variables (locale, terminal, ...) this run carried besides the ones the case asked for
     pub ambient: Vec<(String, String)>,
+    /// what kind of object the run's standard input was: pipe | socket | file | file-at-offset
+    pub stdin_kind: &'static str,
 }
 
 impl CliOut {
@@ -44,11 +46,12 @@ impl CliOut {
     }
     pub fn describe(&self) -> String {
         format!(
-            "code={:?} signal={:?} timed_out={}{}{} stdout={:?} stderr={:?}",
+            "code={:?} signal={:?} timed_out={}{}{}{} stdout={:?} stderr={:?}",
             self.code,
             self.signal,
             self.timed_out,
             self.hang.as_ref().map(|h| format!(" HANG[{h}]")).unwrap_or_default(),
+            if self.stdin_kind == "pipe" || self.stdin_kind.is_empty() { String::new() } else { format!(" stdin_is={}", self.stdin_kind) },
             if self.ambient.is_empty() { String::new() } else { format!(" ambient_env={:?}", self.ambient.iter().map(|(k, v)| (k.as_str(), crate::engine::truncate(v, 40))).collect::<Vec<_>>()) },
             crate::engine::truncate(&self.stdout_str(), 300),
             crate::engine::truncate(&self.stderr_str(), 300)
@@ -196,12 +199,60 @@ pub fn run(exe: &Path, inv: &Invocation, timeout: Duration) -> CliOut {
 
 pub fn run_raw(exe: &Path, args: &[OsString], env: &[(String, String)], stdin: &[u8], timeout: Duration) -> CliOut {
     let mut cmd = Command::new(exe);
-    cmd.args(args)
-        .env_clear()
-        .env("RUST_BACKTRACE", "0")
-        .stdin(Stdio::piped())
-        .stdout(Stdio::piped())
-        .stderr(Stdio::piped());
+    cmd.args(args).env_clear().env("RUST_BACKTRACE", "0").stdout(Stdio::piped()).stderr(Stdio::piped());
+    // What standard input is (chosen by a hash of the invocation, so that a replay repeats it): mostly a pipe,
+    // sometimes a socket (how sshd and inetd start commands), a regular file, or a regular file whose offset is
+    // not 0 (a shell redirection partly consumed by an earlier command). The bytes to be read are the same.
+    let hk = crate::engine::stable_hash(&("stdin-kind", args.iter().map(|a| a.to_string_lossy().into_owned()).collect::<Vec<_>>(), stdin.len(), stdin.iter().take(64).collect::<Vec<_>>()));
+    let mut stdin_kind: &'static str = "pipe";
+    // a case that names standard input by path (/dev/stdin, /proc/self/fd/0, /dev/fd/0) asks the OS to re-open
+    // it: what that does for a socket (ENXIO) or a file at an offset (starts again at 0) is the OS's business
+    let by_path = args.iter().any(|a| {
+        let a = a.to_string_lossy();
+        a.contains("/dev/stdin") || a.contains("/fd/0") || a.contains("/dev/fd")
+    });
+    if std::env::var_os("HDV_NO_AMBIENT").is_none() && !by_path {
+        stdin_kind = match hk % 10 {
+            0 | 1 => "socket",
+            2 if !stdin.is_empty() => "file",
+            3 | 4 if !stdin.is_empty() => "file-at-offset",
+            _ => "pipe",
+        };
+    }
+    let mut socket_parent: Option<std::os::unix::net::UnixStream> = None;
+    let mut stdin_file: Option<PathBuf> = None;
+    match stdin_kind {
+        "socket" => match std::os::unix::net::UnixStream::pair() {
+            Ok((ours, theirs)) => {
+                cmd.stdin(Stdio::from(std::os::fd::OwnedFd::from(theirs)));
+                socket_parent = Some(ours);
+            }
+            Err(_) => {
+                stdin_kind = "pipe";
+                cmd.stdin(Stdio::piped());
+            }
+        },
+        "file" | "file-at-offset" => {
+            use std::io::{Seek, SeekFrom};
+            let skip: usize = if stdin_kind == "file" { 0 } else { 1 + (hk / 10 % 9000) as usize };
+            let mut content = vec![b'#'; skip];
+            content.extend_from_slice(stdin);
+            let path = temp_file(&global_root(), &content);
+            match std::fs::File::open(&path).and_then(|mut f| f.seek(SeekFrom::Start(skip as u64)).map(|_| f)) {
+                Ok(f) => {
+                    cmd.stdin(Stdio::from(f));
+                }
+                Err(_) => {
+                    stdin_kind = "pipe";
+                    cmd.stdin(Stdio::piped());
+                }
+            }
+            stdin_file = Some(path);
+        }
+        _ => {
+            cmd.stdin(Stdio::piped());
+        }
+    }
     for (k, v) in env {
         cmd.env(k, v);
     }
@@ -231,20 +282,30 @@ pub fn run_raw(exe: &Path, args: &[OsString], env: &[(String, String)], stdin: &
                 timed_out: true,
                 hang: None,
                 ambient: vec![],
+                stdin_kind: "pipe",
             }
         }
     };
     let id = NEXT.fetch_add(1, Ordering::Relaxed);
     let now = Instant::now();
     watchdog().lock().unwrap().push(Watch { pid: child.id(), start: now, deadline: now + timeout, id, last_cpu: 0, idle_since: now, last_probe: now });
-    let mut sin = child.stdin.take().unwrap();
+    let sin = child.stdin.take();
     let data = stdin.to_vec();
     let writer = std::thread::spawn(move || {
-        let _ = sin.write_all(&data);
-        drop(sin);
+        if let Some(mut sin) = sin {
+            let _ = sin.write_all(&data);
+            drop(sin);
+        } else if let Some(mut s) = socket_parent {
+            let _ = s.write_all(&data);
+            let _ = s.shutdown(std::net::Shutdown::Write);
+            // keep our end open until the child is gone (it may still write nothing to it); dropped here
+        }
     });
     let out = child.wait_with_output();
     let _ = writer.join();
+    if let Some(p) = stdin_file {
+        let _ = std::fs::remove_file(p);
+    }
     watchdog().lock().unwrap().retain(|e| e.id != id);
     let killed: Option<Option<String>> = KILLED.get().and_then(|k| {
         let mut k = k.lock().unwrap();
@@ -263,9 +324,10 @@ pub fn run_raw(exe: &Path, args: &[OsString], env: &[(String, String)], stdin: &
                 timed_out,
                 hang,
                 ambient,
+                stdin_kind,
             }
         }
-        Err(e) => CliOut { code: None, signal: None, stdout: vec![], stderr: format!("wait failed: {e}").into_bytes(), timed_out: true, hang: None, ambient: vec![] },
+        Err(e) => CliOut { code: None, signal: None, stdout: vec![], stderr: format!("wait failed: {e}").into_bytes(), timed_out: true, hang: None, ambient: vec![], stdin_kind: "pipe" },
     }
 }
 
